@@ -1,5 +1,6 @@
 """C18 — socket ports deliver exactly the complete messages before a disconnect."""
 import socket
+import sys
 import threading
 import time
 
@@ -9,7 +10,7 @@ from ..common import HarnessTimeout, exc_name, generic_replay
 RULE = ('message lists (<= 6 messages of all types, sysex lengths 0..20) x EVERY cut offset 0..total of their byte stream x random '
         'segmentations of the bytes before the cut, sent over socket.socketpair() with the receiving SocketPort polled between '
         'segments, then the peer closes (close / shutdown); iteration of the receiving port under a sleep counter; close '
-        'visibility (peer sees EOF); bursts of 1..65536 bytes (every power of two around the usual buffer sizes) from a peer that stays connected, with the non-blocking calls under a 3 s watchdog; a loopback PortServer with two clients, one of them bursting and then idle, or sending several messages and disconnecting before the server polls; format/parse of all ports 1..65535 x hosts. '
+        'visibility (peer sees EOF); bursts of 1..65536 bytes (every power of two around the usual buffer sizes) from a peer that stays connected, with the non-blocking calls under a 3 s watchdog; a loopback PortServer with two clients, one of them bursting and then idle, or sending several messages and disconnecting before the server polls; four independent socket ports each drained by its own thread at the same time (1000 messages each, 48-byte sends, interpreter switch interval 1 us); a real pause of 2.4 s (thorough: 1.2, 2.4, 5.5 s) inside a message; format/parse of all ports 1..65535 x hosts. '
         'Distinct by (messages, cut, segmentation); non-trivial = cut strictly inside the stream')
 
 
@@ -202,6 +203,94 @@ def close_while_receiving(action):
                 pass
 
 
+def two_ports_in_threads(nmsg=1000, chunk=48, nports=4):
+    """Two independent socket ports drained by two threads at the same time: each receives exactly its own messages."""
+    from mido.sockets import SocketPort
+    pairs = [socket.socketpair() for _ in range(nports)]
+    ports = [SocketPort('p%d' % i, 1, conn=a) for i, (a, _b) in enumerate(pairs)]
+    results = [[] for _ in range(nports)]
+    errs = []
+    go = threading.Event()
+    old_interval = sys.getswitchinterval()
+    sys.setswitchinterval(1e-6)          # switch threads as often as the interpreter allows
+    try:
+        def sender(i):
+            b = pairs[i][1]
+            data = b''.join(bytes(portsim.msg_of(i * 8000 + k).bytes()) + (bytes([0xf0, i, k % 128, 0xf7]) if k % 7 == 0 else b'')
+                            for k in range(nmsg))
+            go.wait()
+            for j in range(0, len(data), chunk):
+                b.sendall(data[j:j + chunk])
+            b.close()
+
+        def receiver(i):
+            go.wait()
+            try:
+                for m in ports[i]:
+                    results[i].append(msgs.canon_msg(m))
+            except Exception as e:
+                errs.append(f'port {i}: iteration raised {type(e).__name__}: {e}')
+        ths = [threading.Thread(target=f, args=(i,), daemon=True) for i in range(nports) for f in (sender, receiver)]
+        for t in ths:
+            t.start()
+        go.set()
+        for t in ths:
+            t.join(20)
+        if any(t.is_alive() for t in ths):
+            return 'several socket ports drained by one thread each: not finished within 20 s'
+        if errs:
+            return errs[0]
+        import mido
+        for i in range(nports):
+            want = []
+            for k in range(nmsg):
+                want.append(msgs.canon_msg(portsim.msg_of(i * 8000 + k)))
+                if k % 7 == 0:
+                    want.append(msgs.canon_msg(mido.Message('sysex', data=(i, k % 128))))
+            if results[i] != want:
+                bad = next((j for j, (x, y) in enumerate(zip(results[i], want)) if x != y), min(len(results[i]), len(want)))
+                return (f'{nports} socket ports, each drained by its own thread at the same time (switch interval 1 us): port {i} received {len(results[i])} messages, '
+                        f'{len(want)} were sent to it; first difference at index {bad}: {results[i][bad:bad + 2]} vs {want[bad:bad + 2]}')
+        return None
+    finally:
+        sys.setswitchinterval(old_interval)
+        for a, b in pairs:
+            for s_ in (a, b):
+                try:
+                    s_.close()
+                except Exception:
+                    pass
+
+
+def stall_inside_message(pause):
+    """All bytes of a message arrive, with a real pause in the middle: it is delivered all the same."""
+    from mido.sockets import SocketPort
+    a, b = socket.socketpair()
+    port = SocketPort('pair', 1, conn=a)
+    try:
+        b.sendall(bytes([0x90, 1, 2, 0xf0, 5, 6]))
+        got = [msgs.canon_msg(m) for m in port.iter_pending()]
+        time.sleep(pause)
+        b.sendall(bytes([7, 0xf7, 0x80, 3]))
+        got += [msgs.canon_msg(m) for m in port.iter_pending()]
+        time.sleep(pause / 2)
+        b.sendall(bytes([4]))
+        b.close()
+        got += [msgs.canon_msg(m) for m in port]
+        import mido
+        want = [msgs.canon_msg(m) for m in (mido.Message('note_on', note=1, velocity=2), mido.Message('sysex', data=(5, 6, 7)),
+                                            mido.Message('note_off', note=3, velocity=4))]
+        if got != want:
+            return f'with a pause of {pause} s inside a message the port delivered {got} instead of {want}'
+        return None
+    finally:
+        for s_ in (a, b):
+            try:
+                s_.close()
+            except Exception:
+                pass
+
+
 def server_case(rng, burst=None, leave=0):
     """Two clients send to a loopback PortServer; poll() must hand out both without blocking."""
     import mido
@@ -368,6 +457,18 @@ def run(ck):
         f = open_burst(sizes)
         if f:
             ck.oracle_fail({'burst': sizes}, f)
+    for _ in range(8 if ck.tier == 'quick' else 40):
+        ck.evaluations += 1
+        ck.count('two_ports_in_threads')
+        f = two_ports_in_threads()
+        if f:
+            ck.oracle_fail({'two_ports': True}, f)
+    for pause in ((2.4,) if ck.tier == 'quick' else (1.2, 2.4, 5.5)):
+        ck.evaluations += 1
+        ck.count('stall_inside_message')
+        f = stall_inside_message(pause)
+        if f:
+            ck.oracle_fail({'stall': pause}, f)
     for action in ('receive_close', 'iter_close', 'receive_peer', 'iter_peer'):
         ck.evaluations += 1
         ck.count('two_threads:' + action)
@@ -397,6 +498,10 @@ def run(ck):
 def oracle(case):
     if 'close_visible' in case:
         return close_visible()
+    if 'two_ports' in case:
+        return two_ports_in_threads()
+    if 'stall' in case:
+        return stall_inside_message(case['stall'])
     if 'two_threads' in case:
         return close_while_receiving(case['two_threads'])
     if 'burst' in case:
